@@ -261,6 +261,13 @@ def seq_oracle(case, outs):
             # refusing is the allowed outcome at the limits of the id space (the dictionary's exhaustion assert,
             # an overflow check of the quoted counter) and nowhere else
             if boundary and ("exhausted" in o["panic"] or "overflow" in o["panic"]):
+                # ... and a refused call leaves nothing behind: the same call, issued again, is refused again
+                r = o.get("retry")
+                if r is not None and "id" in r:
+                    if r["id"] >= QBIT:
+                        return ("step %d: encode(%r) was refused (dictionary exhausted) and, called again, returned the id %d "
+                                "in the quoted range" % (k, op[1], r["id"]))
+                    return "step %d: encode(%r) was refused (dictionary exhausted) and, called again, returned %d" % (k, op[1], r["id"])
                 return None
             return "step %d: the call panicked: %s" % (k, o["panic"])
         if t == "Enc":
@@ -388,6 +395,9 @@ def eval_seq(ctx, binpath, cases, stream):
                 # the dictionary's assert: the model must stop at the same call with Exhausted
                 if not (m_err == "Exhausted" and len(m_outs) == k):
                     differ = "implementation refused call %d (dictionary exhausted), model: %r after %d calls" % (k, m_err, len(m_outs))
+                elif c["mops"][k][0] == "Enc" and any(im["dump"].get(f) != m_dump.get(f) for f in ("s2i", "i2s", "next")):
+                    # the model's maps are those in which the refused call was made: a refused plain encode changes nothing
+                    differ = "the refused encode (call %d) changed the dictionary maps" % k
             elif "overflow" in msg:
                 # u32 overflow check of next_qt_id (debug builds): the unbounded model hands out 2^32-1 there
                 if not (k < len(m_outs) and m_outs[k] == {"id": 2 ** 32 - 1}):
